@@ -467,6 +467,9 @@ class HybridLoad:
                 month_load = self.monthly_cl[i] - self.monthly_hl[i] - month_peak_cl + month_peak_hl
                 month_rate = month_load / month_duration
                 peak_day_diff = self.monthly_peak_cl_day[i] - self.monthly_peak_hl_day[i]
+                if peak_day_diff == 0 and not (self.monthly_peak_cl[i] > 0 and self.monthly_peak_hl[i] > 0):
+                    # at most one pulse this month: nothing to place back to back, use the general ordering
+                    peak_day_diff = -1
                 # Place the peaks roughly midway through the day they occur on.
                 # (In JDS's opinion, this should be amply accurate for the
                 # hybrid time step.)
